@@ -434,6 +434,22 @@ func (it *Interp) binop(op token.Token, a, b Value, operandT, resT types.Type, f
 			}
 		}
 	}
+	// arrays of words compared as a whole: equality of the integers they hold
+	if op == token.EQL || op == token.NEQ {
+		if aa, ok := a.(Agg); ok {
+			if ba, ok := b.(Agg); ok && len(aa.C.Kids) == len(ba.C.Kids) && len(aa.C.Kids) > 0 {
+				ta, ok1 := it.readInt(aa.C)
+				tb, ok2 := it.readInt(ba.C)
+				if ok1 && ok2 {
+					r := EQ(ta, tb)
+					if op == token.NEQ {
+						r = PNot(r)
+					}
+					return predValue(r)
+				}
+			}
+		}
+	}
 	// a symbolic string against the empty string is a test of its length
 	if op == token.EQL || op == token.NEQ {
 		for i := 0; i < 2; i++ {
